@@ -35,6 +35,9 @@ CHECKS = {
  "C15": dict(engine="E1", technique="bounded-exhaustive enumeration of POM lineages (deviation-bounded from four family bases) run through the real decode/MergeProfiles/MergeParent/Interpolate/ProcessDependencies pipeline and compared with Maven's own DefaultModelBuilder on the same files (committed reference table, live in thorough); exhaustive enumeration of property tables for interpolation termination in supervised subprocesses",
    text="5 459 lineages in quick (<= 2 deviations; 99 000 with <= 3 in thorough) over four families - property precedence across project/ancestors/active and inactive profiles with chained and built-in expressions in every dependency field; dependency-management injection by key with imports at every level (nested, sibling, parented, property-versioned, profile-declared BOMs); profile activation by default, JDK value/negation/range and OS family/name/arch/version and what active profiles contribute; import merge order - are rendered as pom.xml files and the effective dependencies and managed dependencies (all eight fields, in order) compared with Maven 3.8.7 under JDK 11.0.8/linux/amd64. Every property table over 3 (4) keys x 13 values x 15 query strings (33 k / 428 k interpolations) must terminate and equal the substitution model (cyclic: unresolved with the placeholder left).",
    note="Trusted: Maven 3.8.7's model builder at validation level MINIMAL and the 40-line normal form. Lineages Maven rejects are not compared; several managed declarations of one key inside one file are outside the domain. Four known findings suppressed by exact witness (425 witnesses across tiers), each explained by a triage normaliser (DESIGN 9).", ref="5 C15"),
+ "C16": dict(engine="E1", technique="bounded-exhaustive enumeration of PEP 508 grammar products (requirement strings, names, marker expressions); pypi.ParseDependency/CanonPackageName executed directly and markers executed as dependency guards inside real PyPI resolutions, all compared with pip's packaging library (committed reference tables, live in thorough)",
+   text="34 884 requirement strings in quick (1.13 M in thorough: name x extras x specifier list x marker x every separator/space position) must yield packaging's canonical name, extras set, specifier set and marker token sequence; all 2 334 (13 998) valid names over {a,B,1,-,_,.} up to length 5 (6) must normalise as canonicalize_name does, idempotently; 2 581 (4 065) marker expressions - every supported variable x every operator x literals around the environment's value in both operand orders, and/or/parenthesis compounds - are placed as guards in real resolutions and the guarded edge must be present exactly when packaging 26.3 evaluates the marker true in the library's fixed environment for requested extras none, x, y and x+y.",
+   note="Trusted: packaging 26.3 (rows on which pip's vendored 21.3 differs, and markers packaging raises on, are not judged), pip's any-of rule for several extras, the marker tokeniser used to compare marker text. Four known findings suppressed by exact witness (85 witnesses).", ref="5 C16"),
  "C17": dict(engine="E1", technique="complete enumeration of every declaration of both API versions from embedded descriptors and from the .proto sources (own proto3 parser); simulation check v3 <= v3alpha and descriptor/source/generated-code agreement",
    text="All 6 576 declaration nodes (services, RPCs with HTTP bindings, messages, fields with number/type/cardinality/oneof, enums) of api/v3 and api/v3alpha are enumerated; every v3 node must exist identically in v3alpha (HTTP paths modulo version prefix), .proto text must equal the embedded descriptor in both directions incl. order, generated gRPC stubs and struct tags must equal the descriptor, resolve.System constants must equal the API enum.",
    note="Complete for the finite object it examines (not a bounded sample). Trusted: the 300-line proto3 parser.", ref="5 C17"),
